@@ -10,7 +10,7 @@ SCHEDULE_DEPENDENT = True
 RULE = ('2-5 simulated threads run seeded scripts over a small pool of overlapping signal names: signals.append(name), '
         'attribute access signals.NAME, Event(signal=name), Event(signal=number), name_for_signal, is_inner_signal; the '
         'scheduler may switch at every line or bytecode of miros/event.py (sticky walk / PCT); a single-thread stratum '
-        'covers name sequences alone. Oracle: no exception in any thread; every observation of a name\'s number equals the '
+        'covers name sequences alone; now and then a script also registers a name in a separate SignalSource instance of its own. Oracle: no exception in any thread; every observation of a name\'s number equals the '
         'first one; at the end the numbers are distinct and positive, name_for_signal inverts the binding for every name, the '
         'ten built-in signals are exactly the inner signals (by name and by number), and every constructed event reports the '
         'name it was built from and that name\'s number. Non-trivial = two threads were inside a registering call at the same '
@@ -39,6 +39,9 @@ def generate(seed, stratum, tier):
       k = rng.choices(KINDS, weights=[4, 4, 4, 2, 2, 1])[0]
       name = rng.choice(pool + INNER[:2]) if k in ('event_num', 'name_for', 'is_inner') else rng.choice(pool)
       sc.append([k, name])
+      if rng.random() < 0.12:
+        # a registry of its own (another SignalSource instance, as a test or a tool makes one) is used next to the shared one
+        sc.append(['other', rng.choice(pool)])
     scripts.append(sc)
   return {'scripts': scripts, 'pool': pool,
           'sched': common.draw_sched(rng, grans=('line', 'opcode'), weights=(2, 3), expected_steps=150, policies=('sticky', 'pct'))}
@@ -64,6 +67,7 @@ def execute(sc, sched):
   signals = ev.signals
   obs = []      # (thread, op, name, number observed or None, extra)
   errors = []
+  others = []   # at most one separate SignalSource instance per run
 
   def client(k, script):
     for op, name in script:
@@ -89,6 +93,13 @@ def execute(sc, sched):
         elif op == 'is_inner':
           if name in signals:
             obs.append((k, op, name, signals[name], (signals.is_inner_signal(name), signals.is_inner_signal(signals[name]))))
+        elif op == 'other':
+          if not others:
+            others.append(ev.SignalSource())
+          o = others[0]
+          o.append('OTHER_' + name)
+          if o.name_for_signal(o['OTHER_' + name]) != 'OTHER_' + name:
+            errors.append((k, op, name, 'WrongName', 'the separate registry: name_for_signal(%s) = %r, expected %s' % (o['OTHER_' + name], o.name_for_signal(o['OTHER_' + name]), 'OTHER_' + name)))
       except kernel.SimAbort:
         raise
       except BaseException as e:  # noqa
